@@ -53,6 +53,7 @@ int main(int argc, char **argv)
   vrt::parse_args(argc, argv);
   c03::register_a();
   c03::register_b();
+  c03::register_c();
   c03::register_ctor();
   return vrt::run(argc, argv);
 }
